@@ -169,6 +169,54 @@ pub fn oracle_files(ctx: &mut Ctx) {
             }
         }
     }
+    // ---- standard output as the destination (the real executable): a file these very options cannot improve any
+    // more, also in a container oxipng would write differently, must come out byte for byte --------------------------
+    {
+        use crate::cli::{canon_dump, gen_flags, run_bin};
+        let w = crate::cli::work_dir("c04stdout");
+        for _ in 0..(ctx.n / 4).max(10) {
+            let case = gen_case(&mut rng, Profile::Any, false, 9);
+            let fv = gen_flags(&mut rng);
+            std::fs::write(w.join("in.png"), &case.input).unwrap();
+            let _ = std::fs::remove_file(w.join("s1.png"));
+            let mut a1 = fv.args.clone();
+            a1.extend(["-q".to_string(), "--out".to_string(), "s1.png".to_string(), "in.png".to_string()]);
+            let r1 = run_bin(&w, &a1);
+            let Some((_, o)) = canon_dump(&r1.dump) else { st.count("stdout_flags_rejected"); continue; };
+            if o.force || r1.status != Some(0) { st.count("stdout_skipped"); continue; }
+            let mut stage2 = std::fs::read(w.join("s1.png")).unwrap_or(case.input.clone());
+            let mut shape = "own-output";
+            if rng.bool() {
+                if let (Ok(chs), Ok(d)) = (crate::pngparse::parse_chunks(&stage2), crate::pngparse::decode(&stage2)) {
+                    let mut list: Vec<([u8; 4], Vec<u8>)> = chs.iter().map(|c| (c.name, c.data.clone())).collect();
+                    if let Some(at) = list.iter().position(|c| &c.0 == b"IDAT") {
+                        let bk = match d.img.ct { 3 => vec![0], 0 | 4 => vec![0, 1], _ => vec![0, 1, 0, 2, 0, 3] };
+                        list.insert(at, (*b"pHYs", vec![0, 0, 0x0b, 0x13, 0, 0, 0x0b, 0x13, 1]));
+                        list.insert(at, (*b"bKGD", bk));
+                        stage2 = crate::front::rebuild(&list);
+                        shape = "not-canonical";
+                    }
+                }
+            }
+            std::fs::write(w.join("in2.png"), &stage2).unwrap();
+            let mut a2 = fv.args.clone();
+            a2.extend(["-q".to_string(), "--stdout".to_string(), "in2.png".to_string()]);
+            let r2 = run_bin(&w, &a2);
+            st.count("stdout_cases");
+            st.count(&format!("stdout_{}", shape));
+            let replay = format!("{{\"args\": {}, \"input_png_hex\": {}}}", jstr(&a2.join(" ")), jstr(&crate::img::hex(&stage2)));
+            if r2.status != Some(0) {
+                st.fail("error-on-valid", format!("exit status {:?} ({})", r2.status, a2.join(" ")), replay);
+            } else if r2.stdout == stage2 {
+                st.count("stdout_original_bytes");
+            } else if r2.stdout.len() < stage2.len() {
+                st.count("stdout_smaller");
+            } else {
+                st.fail("larger", format!("standard output carries {} bytes that are neither smaller than nor identical to the {}-byte input ({})", r2.stdout.len(), stage2.len(), a2.join(" ")), replay);
+            }
+        }
+        let _ = std::fs::remove_dir_all(&w);
+    }
     let _ = std::fs::remove_dir_all(&dir);
     st.sample("in-place / --out / pretend runs of optimize() on generated files incl. oxipng's own outputs".into());
     ctx.write_stats(&st);
